@@ -145,7 +145,7 @@ def run(ctx):
             raise Undecided("simulation of the real spec reported %s" % (rS.violations or rS.errors)[:1])
         totals["transitions"] += rS.generated
         scheds = cc.sim_to_scheds(ctx, ctx.spec_copy(), pref)
-        attacks = [a for a in load_attacks() if a["powers"] == powers and a["byz"] == byz3] + cc.load_prefixes(powers, byz3)
+        attacks = [a for a in load_attacks() if a["powers"] == powers and a["byz"] == byz3 and not a.get("restart")] + cc.load_prefixes(powers, byz3)
         for k, a in enumerate(attacks):
             scheds.append({"id": 100000 + k, "steps": a["steps"]})
         inp = {"mode": "replay", "dups": 5, "powers": powers, "byz": byz3, "maxround": 9, "scheds": scheds, "synctail": True, "byzafter": True,
@@ -165,7 +165,8 @@ def run(ctx):
     done = {(tuple(pw), bi) for (_t, pw, bi, _l) in cfgs3}
     groups = {}
     for a in load_attacks():
-        groups.setdefault((tuple(a["powers"]), tuple(a["byz"])), []).append(a)
+        if not a.get("restart"):
+            groups.setdefault((tuple(a["powers"]), tuple(a["byz"])), []).append(a)
     for (powers, byzl), lst in sorted(groups.items()):
         powers, byzl = list(powers), list(byzl)
         infoL = cc.run_driver(ctx, binp, {"mode": "info", "powers": powers, "byz": [], "maxround": 14}, "infoL")
@@ -183,6 +184,9 @@ def run(ctx):
         account(v, rows, "attack library " + tag)
         cov["configs"].append({"config": "powers %s, faulty %s: attack library only" % (powers, byzl), "exhaustive": False,
                                "attack_schedules": [a["name"] for a in lst], "driver": stats, "events_validated_after_prefix_dedupe": v["events"]})
+
+    # ---------------- R. stop/start of a node inside the height (real receiveRoutine, WAL and catchupReplay) -------------
+    cc.restart_section(ctx, binp, load_attacks(), account, cov, totals)
 
     coverage = {
         "states": totals["states"], "transitions": totals["transitions"],
@@ -215,11 +219,12 @@ def replay(ctx, path):
     pre = rep["replay"]["prefix"]
     reset = pre[0]
     powers = [reset["powers"][n] for n in reset["vals"]]
-    steps = [{"name": r["ev"], "n": r["n"], "m": r.get("m"), "k": r.get("k", "-")} for r in pre[1:] if r["ev"] in ("Deliver", "ProcessInternal", "Timeout")]
+    steps = [{"name": r["ev"], "n": r["n"], "m": r.get("m"), "k": r.get("k", "-")} for r in pre[1:] if r["ev"] in ("Deliver", "ProcessInternal", "Timeout", "Restart")]
     binp = cc.build(ctx)
     mr = reset["maxround"]
     info = cc.run_driver(ctx, binp, {"mode": "info", "powers": powers, "byz": reset["byz"], "maxround": mr}, "info")
     rows, stats = cc.run_driver(ctx, binp, {"mode": "replay", "powers": powers, "byz": reset["byz"], "maxround": mr,
+                                            "routine": bool(reset.get("routine")), "stamp": reset.get("stamp", 0), "filepv": bool(reset.get("filepv")),
                                             "scheds": [{"id": 0, "steps": steps}]}, "replay")
     v = cc.validate(ctx, rows, info, reset["byz"], mr, "replay")
     verdict = core.Verdict(ctx)
